@@ -149,6 +149,14 @@ def check(pid, reg, args, seed, t_start):
                     if name not in avail:
                         raise rsscan.ScanError('harness %s missing' % name)
                     to_run[avail[name]] = (k, name, cells[i])
+            elif k.get('prefix'):
+                names = sorted(n for n in avail if n.startswith(k['id'] + '_') and n not in k.get('exclude', []))
+                if tier != 'thorough':
+                    names = [n for n in names if n not in k.get('thorough_names', [])]
+                if len(names) < k.get('min_count', 1):
+                    raise rsscan.ScanError('generated harness family %s has %d members, expected >= %d' % (k['id'], len(names), k.get('min_count', 1)))
+                for n in names:
+                    to_run[avail[n]] = (k, n, None)
             else:
                 if k['id'] not in avail:
                     raise rsscan.ScanError('harness %s missing' % k['id'])
